@@ -61,7 +61,9 @@ THEOREMS = {
             "addXty_scale", "gram_ignores_rewards", "listMax_shift",
             "rowsOf_relabel", "fitRec_relabel", "fit_relabel", "partialFit_relabel", "addArm_relabel", "removeArm_relabel",
             "init_relabel", "stepOp_relabel", "run_relabel", "expDict_relabel", "argmaxFirst_relabel", "init_run_relabel",
-            "armDistance_relabel", "distanceThreshold_relabel", "coldToWarm_relabel", "warmStart_relabel"],
+            "armDistance_relabel", "distanceThreshold_relabel", "coldToWarm_relabel", "warmStart_relabel",
+            "predictExp_relabel_greedy", "predictExp_relabel_thompson", "predictExp_relabel_linear", "predictExp_relabel",
+            "predict_relabel"],
 }
 
 IMPORTS = {
@@ -84,7 +86,7 @@ IMPORTS = {
     "C17": ["MabModel.Props.C17"],
     "C18": ["MabModel.Props.C18"],
     "C19": ["MabModel.Props.C19"],
-    "C20": ["MabModel.Props.C20", "MabModel.Props.C20b", "MabModel.Props.C20c"],
+    "C20": ["MabModel.Props.C20", "MabModel.Props.C20b", "MabModel.Props.C20c", "MabModel.Props.C20d"],
 }
 
 
